@@ -16,34 +16,76 @@ and every position (payload or checksum) -/
 theorem crc32c_single_byte (p : Bytes) (hp : wfBytes p) (k d : Nat) (hk : k < p.length + 4)
     (hd0 : 0 < d) (hd : d < 256) :
     crc32cDec true (xorAt (crc32cEnc p) k d) = .error .invalidChecksum := by
-  sorry
+  have _ := hp   -- not needed: the register difference does not depend on the byte values
+  exact crc32c_detects p k d hk hd0 hd
+
+example : wfBytes [1, 2, 3] ∧ 1 < [1, 2, 3].length + 4 ∧ 0 < 0x80 ∧ 0x80 < 256 := by
+  refine ⟨?_, by decide, by decide, by decide⟩
+  intro x hx; simp at hx; omega
+example : crc32cDec true (xorAt (crc32cEnc [1, 2, 3]) 1 0x80) = .error .invalidChecksum := by rfl
+example : crc32cDec true (xorAt (crc32cEnc [1, 2, 3]) 5 0x01) = .error .invalidChecksum := by rfl
+example : crc32cDec true (crc32cEnc [1, 2, 3]) = .ok [1, 2, 3] := by rfl
 
 /-- **Fletcher-32 (HDF5 variant, odd lengths included) detects every single-byte alteration** -/
 theorem fletcher32_single_byte (p : Bytes) (hp : wfBytes p) (k d : Nat) (hk : k < p.length + 4)
     (hd0 : 0 < d) (hd : d < 256) :
     fletcher32Dec true (xorAt (fletcher32Enc p) k d) = .error .invalidChecksum := by
-  sorry
+  exact fletcher32_detects p hp k d hk hd0 hd
+
+example : wfBytes [1, 2, 255] ∧ 2 < [1, 2, 255].length + 4 ∧ 0 < 0xFF ∧ 0xFF < 256 := by
+  refine ⟨?_, by decide, by decide, by decide⟩
+  intro x hx; simp at hx; omega
+example : fletcher32Dec true (xorAt (fletcher32Enc [1, 2, 255]) 2 0xFF) = .error .invalidChecksum := by rfl
+example : fletcher32Dec true (xorAt (fletcher32Enc [1, 2, 255]) 4 0x10) = .error .invalidChecksum := by rfl
+example : fletcher32Dec true (fletcher32Enc [1, 2, 255]) = .ok [1, 2, 255] := by rfl
 
 /-- with validation off, decoding strips the checksum and does nothing else (for ANY stored bytes) -/
 theorem novalidate_only_strips (sum : Bytes → Nat) (b : Bytes) (h : 4 ≤ b.length) :
     checksumDec sum false b = .ok (b.take (b.length - 4)) := by
-  sorry
+  unfold checksumDec
+  rw [if_neg (by omega)]
+  simp
+
+example : checksumDec crc32c false [9, 8, 7, 6, 5, 4] = .ok [9, 8] := by rfl
 
 /-- a value too short to hold a checksum is an error, validated or not -/
 theorem checksum_too_short (sum : Bytes → Nat) (validate : Bool) (b : Bytes) (h : b.length < 4) :
     checksumDec sum validate b = .error .tooShort := by
-  sorry
+  unfold checksumDec
+  rw [if_pos h]
+
+example : checksumDec crc32c true [1, 2, 3] = .error .tooShort := by rfl
 
 /-- decoding never "succeeds with different data": if a validated decode succeeds on ANY bytes, the result is the
 stored prefix and its checksum matches -/
 theorem checksum_ok_iff (sum : Bytes → Nat) (b p : Bytes) :
     checksumDec sum true b = .ok p ↔ (4 ≤ b.length ∧ p = b.take (b.length - 4) ∧ le32 (sum p) = b.drop (b.length - 4)) := by
-  sorry
+  unfold checksumDec
+  by_cases h : b.length < 4
+  · rw [if_pos h]
+    constructor
+    · intro h'; cases h'
+    · intro h'; omega
+  · rw [if_neg h]
+    simp only [Bool.true_and]
+    by_cases hs : le32 (sum (b.take (b.length - 4))) = b.drop (b.length - 4)
+    · simp only [hs, bne_self_eq_false, Bool.false_eq_true, if_false, Except.ok.injEq]
+      constructor
+      · intro h'; subst h'; exact ⟨by omega, rfl, hs⟩
+      · intro h'; exact h'.2.1.symm
+    · have : (le32 (sum (b.take (b.length - 4))) != b.drop (b.length - 4)) = true := by simpa using hs
+      simp only [this, if_true]
+      constructor
+      · intro h'; cases h'
+      · intro h'; obtain ⟨_, h2, h3⟩ := h'; subst h2; exact absurd h3 hs
 
 /-- **shards**: a value shorter than its index is an error -/
 theorem shard_truncated (c : Shard.Cfg) (validate : Bool) (v : Bytes) (h : v.length < Shard.indexSize c) :
     Shard.decode c validate v = .error .tooShort := by
-  sorry
+  unfold Shard.decode Shard.indexBytes
+  rw [if_pos h]
+
+example : Shard.decode ⟨2, true, false, true⟩ true [1, 2, 3] = .error .tooShort := by rfl
 
 /-- **shards**: a live index entry reaching outside the value — including `offset + nbytes` beyond 2^64 — is an
 error, never bytes from elsewhere -/
@@ -51,7 +93,28 @@ theorem shard_entry_out_of_bounds (c : Shard.Cfg) (validate : Bool) (v ib : Byte
     (hib : Shard.indexBytes c v = some ib) (hdec : Shard.decodeIndex c validate ib = .ok entries)
     (e : Nat × Nat) (he : e ∈ entries) (hlive : Shard.isLive e = true) (hout : e.1 + e.2 > v.length) :
     ∃ err, Shard.decode c validate v = .error err := by
-  sorry
+  cases hres : Shard.decode c validate v with
+  | error err => exact ⟨err, rfl⟩
+  | ok chunks =>
+    exfalso
+    unfold Shard.decode at hres
+    simp only [hib, hdec] at hres
+    obtain ⟨_, hall⟩ := mapM_except_ok _ _ _ hres
+    obtain ⟨i, hi, rfl⟩ := List.getElem_of_mem he
+    have := hall i hi (by omega)
+    unfold Shard.isLive at hlive
+    simp only [Bool.not_eq_true'] at hlive
+    simp only [hlive, Bool.false_eq_true, if_false, if_pos hout] at this
+    cases this
+
+/- the hypotheses are satisfiable: a 16-byte shard (index at end, no crc) whose only entry `(5, 100)` is live and
+reaches outside the value -/
+example : let c : Shard.Cfg := ⟨1, true, false, false⟩; let v := le64 5 ++ le64 100
+    Shard.indexBytes c v = some v ∧ Shard.decodeIndex c true v = .ok [(5, 100)] ∧
+    Shard.isLive (5, 100) = true ∧ (5 + 100 > v.length) ∧ Shard.decode c true v = .error .other := by
+  refine ⟨by rfl, by rfl, by rfl, by decide, by rfl⟩
+/- `offset + nbytes ≥ 2^64` -/
+example : Shard.decode ⟨1, true, false, false⟩ true (le64 (2 ^ 64 - 2) ++ le64 3) = .error .other := by rfl
 
 /-- **shards**: whenever decoding ANY bytes succeeds, every returned inner chunk is a slice of the stored value at
 the position its index entry names (no out-of-bounds access, no bytes from elsewhere) -/
@@ -63,13 +126,65 @@ theorem shard_decode_ok_slices (c : Shard.Cfg) (validate : Bool) (v : Bytes) (ch
         (Shard.isLive entries[i] = false → chunks[i] = none) ∧
         (Shard.isLive entries[i] = true → entries[i].1 + entries[i].2 ≤ v.length ∧
           chunks[i] = some (slice v entries[i].1 (entries[i].1 + entries[i].2))) := by
-  sorry
+  unfold Shard.decode at h
+  cases hib : Shard.indexBytes c v with
+  | none => simp [hib] at h
+  | some ib =>
+    cases hdec : Shard.decodeIndex c validate ib with
+    | error e => simp [hib, hdec] at h
+    | ok entries =>
+      simp only [hib, hdec] at h
+      obtain ⟨hlen, hall⟩ := mapM_except_ok _ _ _ h
+      refine ⟨ib, entries, rfl, hdec, hlen, ?_⟩
+      intro i hi hc
+      have := hall i hi hc
+      unfold Shard.isLive
+      constructor
+      · intro hl
+        simp only [Bool.not_eq_false'] at hl
+        simp only [hl, if_true] at this
+        exact (Except.ok.inj this).symm
+      · intro hl
+        simp only [Bool.not_eq_true'] at hl
+        simp only [hl, Bool.false_eq_true, if_false] at this
+        by_cases hout : entries[i].1 + entries[i].2 > v.length
+        · rw [if_pos hout] at this; cases this
+        · rw [if_neg hout] at this
+          exact ⟨by omega, (Except.ok.inj this).symm⟩
+
+example : Shard.decode ⟨2, true, false, false⟩ true ([7, 8, 9] ++ le64 1 ++ le64 2 ++ le64 Shard.sentinel ++ le64 Shard.sentinel) =
+    .ok [some [8, 9], none] := by rfl
 
 /-- an index protected by crc32c: any single-byte alteration of the index bytes is detected -/
 theorem shard_index_single_byte (c : Shard.Cfg) (hc : c.indexCrc = true) (entries : List (Nat × Nat))
     (hn : entries.length = c.nChunks) (hw : ∀ e ∈ entries, e.1 < 2 ^ 64 ∧ e.2 < 2 ^ 64)
     (k d : Nat) (hk : k < Shard.indexSize c) (hd0 : 0 < d) (hd : d < 256) :
     Shard.decodeIndex c true (xorAt (Shard.encodeIndex c entries) k d) = .error .invalidChecksum := by
-  sorry
+  have _ := hw   -- not needed (CRC detection is independent of the byte values)
+  have hraw := rawIndex_length c.indexBig entries
+  have hlen : (xorAt (Shard.encodeIndex c entries) k d).length = Shard.indexSize c := by
+    unfold xorAt Shard.encodeIndex Shard.indexSize
+    simp only [hc, if_true, List.length_set, crc32cEnc, checksumEnc, List.length_append, hraw, le32_length, hn]
+  unfold Shard.decodeIndex
+  rw [if_neg (by simp [hlen])]
+  simp only [hc, if_true]
+  have hk' : k < (entries.flatMap (fun e => Shard.w64 c.indexBig e.1 ++ Shard.w64 c.indexBig e.2)).length + 4 := by
+    rw [hraw, hn]; unfold Shard.indexSize at hk; simpa [hc] using hk
+  have := crc32c_detects _ k d hk' hd0 hd
+  unfold xorAt Shard.encodeIndex
+  simp only [hc, if_true]
+  rw [this]
+
+example : let c : Shard.Cfg := ⟨1, true, false, true⟩
+    c.indexCrc = true ∧ [(3, 5)].length = c.nChunks ∧ (∀ e ∈ [(3, 5)], e.1 < 2 ^ 64 ∧ e.2 < 2 ^ 64) ∧
+    8 < Shard.indexSize c := by
+  refine ⟨rfl, rfl, ?_, by decide⟩
+  intro e he; simp at he; subst he; decide
+set_option maxRecDepth 4000 in
+example : Shard.decodeIndex ⟨1, true, false, true⟩ true
+    (xorAt (Shard.encodeIndex ⟨1, true, false, true⟩ [(3, 5)]) 8 0x04) = .error .invalidChecksum := by rfl
+set_option maxRecDepth 4000 in
+example : Shard.decodeIndex ⟨1, true, false, true⟩ true
+    (Shard.encodeIndex ⟨1, true, false, true⟩ [(3, 5)]) = .ok [(3, 5)] := by rfl
 
 end Zarrs.C15
